@@ -121,6 +121,15 @@ pub fn run(ctx: &mut Ctx) {
         crate::c02::case(ctx, &cfg, &data, "clen_runs", Sink::Buf, false, seed, "rt,mode,header");
     }
     drain_huff_trace(ctx, "clen_runs");
+    // a code-length alphabet whose Huffman tree is deeper than its 7-bit limit
+    for k in 0..(12 * ctx.scale) {
+        let data = plain::gen(&mut ctx.rng, "clen_deep", 0);
+        let cfg = Cfg { level: ctx.rng.range(1, 10) as u8, strategy: *ctx.rng.pick(&[2u8, 2, 2, 3]), zlib: k % 2 == 0, wb: 15 };
+        let seed = ctx.rng.next();
+        ctx.count("clen_deep_cases");
+        crate::c02::case(ctx, &cfg, &data, "clen_deep", Sink::Buf, false, seed, "rt,mode,header");
+    }
+    drain_huff_trace(ctx, "clen_deep");
     huff_limit_generated(ctx);
     // stale hash entries almost a whole dictionary back (level 1 loads up to 4 KiB of lookahead first)
     for _ in 0..(16 * ctx.scale) {
